@@ -24,33 +24,67 @@ CELL = "triangle"
 GDIM = 2
 
 
+GDIMS = {"interval": 1, "triangle": 2, "tetrahedron": 3}
+N_TAU = 2
+
+
 class Terminals:
     """The terminal alphabet of one run (fresh objects, so counts are stable inside a case)."""
 
-    def __init__(self):
-        self.f = [uflgen.coef((), CELL) for _ in range(3)]
-        self.v = [uflgen.coef((2,), CELL) for _ in range(2)]
-        self.M = [uflgen.coef((2, 2), CELL) for _ in range(2)]
-        self.k = [uflgen.const((), CELL)]
-        self.kv = [uflgen.const((2,), CELL)]
-        self.x = ufl.SpatialCoordinate(uflgen.mesh(CELL))
-        self.all = self.f + self.v + self.M + self.k + self.kv
+    def __init__(self, cell=CELL):
+        g = GDIMS[cell]
+        self.cell, self.g = cell, g
+        self.f = [uflgen.coef((), cell) for _ in range(3)]
+        self.v = [uflgen.coef((g,), cell) for _ in range(2)]
+        self.M = [uflgen.coef((g, g), cell) for _ in range(2)]
+        self.k = [uflgen.const((), cell)]
+        self.kv = [uflgen.const((g,), cell)]
+        self.N4 = [uflgen.coef((4, 4), cell) for _ in range(2)]
+        self.R = [uflgen.coef((2, 3), cell)]
+        self.T3 = [uflgen.coef((2, 2, 2), cell)]
+        self.x = ufl.SpatialCoordinate(uflgen.mesh(cell))
+        # perturbation parameters of the diff() oracle: never part of an expression given to the real code
+        self.taus = [uflgen.const((), cell) for _ in range(N_TAU)]
+        self.all = self.f + self.v + self.M + self.k + self.kv + self.N4 + self.R + self.T3
 
 
 class DenEnv(pyden.Env):
-    """Terminal values: polynomial fields (callables in the mapping) or constants (plain values)."""
+    """Terminal values: polynomial fields in the gdim spatial variables (callables in the mapping) or
+    constants (plain values).  N_TAU extra jet variables carry the perturbations of the diff() oracle."""
 
-    def __init__(self, seed, plain):
-        super().__init__(nv=GDIM, order=3, seed=seed, degree=2)
+    def __init__(self, seed, plain, gdim=GDIM, taus=()):
+        super().__init__(nv=gdim + N_TAU, order=3, seed=seed, degree=2)
+        self.gdim = gdim
         self.plain = plain          # set of id()s of terminals given as plain values
+        self.taus = {id(t): gdim + k for k, t in enumerate(taus)}
 
     def side_dependent(self, t):
         return False
+
+    def field(self, key, constant=False):
+        if key in self.cache:
+            return self.cache[key]
+        c = {}
+        deg = 0 if constant else self.degree
+        pad = (0,) * N_TAU
+        for a in itertools.product(range(deg + 1), repeat=self.gdim):
+            if sum(a) <= deg and sum(a) <= self.order:
+                v = Fr(self.rng.randint(-5, 5), self.rng.choice([1, 2, 3]))
+                if v != 0:
+                    c[a + pad] = v
+        z = (0,) * self.nv
+        if c.get(z, 0) == 0:
+            c[z] = Fr(self.rng.randint(2, 9), 3)
+        j = pyden.Jet(self.nv, self.order, c)
+        self.cache[key] = j
+        return j
 
     def value(self, t, comp, side):
         name = type(t).__name__
         if name == "SpatialCoordinate":
             return self.t_SpatialCoordinate(t, comp, side)
+        if id(t) in self.taus:
+            return pyden.Jet.var(self.nv, self.order, self.taus[id(t)], 0)
         key = (ufl2coq.Ctx.term_key(t), tuple(comp), None)
         return self.field(key, constant=(name == "Constant" or id(t) in self.plain))
 
@@ -273,6 +307,8 @@ class Gen:
             return ufl.as_tensor(self.matrix(d - 1, need)[self.fx(), i], (i,))
         if k == 12:
             return -V()
+        if k == 13 and not need:
+            return ufl.perp(V())
         return V()
 
     def matrix(self, d, need):
@@ -303,6 +339,8 @@ class Gen:
             return self.scalar(d - 1, a) * self.matrix(d - 1, b)
         if k == 8 and not need:
             return ufl.dot(Mx(), Mx())
+        if k == 9 and not need:
+            return r.choice([ufl.inv, ufl.cofac, ufl.dev, ufl.skew, ufl.sym])(Mx())
         return Mx()
 
     def top(self, depth):
@@ -343,7 +381,10 @@ INEXACT_NODES = ("Sqrt", "Exp", "Ln", "Cos", "Sin", "Tan", "Cosh", "Sinh", "Tanh
 
 
 def coq_eligible(f):
-    for n in nodes(f):
+    ns = nodes(f)
+    if len(ns) > 300:
+        return False          # (4x4 inverses, ...): compared with the mirror only
+    for n in ns:
         nm = type(n).__name__
         if nm in INEXACT_NODES:
             return False
@@ -768,22 +809,231 @@ def scope_builder(n):
     return build
 
 
+# -------------------------------------------------------------------------------------------------
+# compound tensor operators: e(x, mapping) evaluates them through their lowering inside _eval.
+# Deterministic enumeration operator x shape x operand family x component, NON-symmetric operands;
+# oracle = pyden (cofactor expansion etc., independent of compound_expressions.py), exact.
+
+def _compound_table():
+    tab = []          # (name, cell, builder(T, fam) -> expr)
+
+    def mat(T, n, fam, which=0):
+        if n == 4:
+            A = T.N4[which]
+            return A if fam == 0 else A * T.f[0] + ufl.transpose(T.N4[1 - which]) + ufl.Identity(4) * T.x[0]
+        A = T.M[which]
+        return A if fam == 0 else A * T.f[0] + ufl.outer(T.x, T.v[which]) + ufl.transpose(T.M[1 - which])
+
+    def vec(T, fam, which=0):
+        return T.v[which] if fam == 0 else T.v[which] * T.f[1] + T.x + ufl.dot(T.M[0], T.v[1 - which])
+
+    cells = {2: "triangle", 3: "tetrahedron"}
+    for n in (2, 3, 4):
+        cell = cells.get(n, "tetrahedron")
+        for fam in (0, 1):
+            for name, op in (("det", ufl.det), ("inv", ufl.inv), ("cofac", ufl.cofac), ("tr", ufl.tr),
+                             ("transpose", ufl.transpose), ("skew", ufl.skew), ("sym", ufl.sym)):
+                tab.append((f"{name}{n}_{fam}", cell, lambda T, n=n, fam=fam, op=op: op(mat(T, n, fam))))
+            if n <= 3:
+                tab.append((f"dev{n}_{fam}", cell, lambda T, n=n, fam=fam: ufl.dev(mat(T, n, fam))))
+                tab.append((f"dotMv{n}_{fam}", cell, lambda T, n=n, fam=fam: ufl.dot(mat(T, n, fam), vec(T, fam))))
+                tab.append((f"dotvM{n}_{fam}", cell, lambda T, n=n, fam=fam: ufl.dot(vec(T, fam), mat(T, n, fam))))
+                tab.append((f"dotMM{n}_{fam}", cell,
+                            lambda T, n=n, fam=fam: ufl.dot(mat(T, n, fam), mat(T, n, fam, 1))))
+                tab.append((f"dotvv{n}_{fam}", cell, lambda T, n=n, fam=fam: ufl.dot(vec(T, fam), vec(T, fam, 1))))
+                tab.append((f"inner{n}_{fam}", cell,
+                            lambda T, n=n, fam=fam: ufl.inner(mat(T, n, fam), mat(T, n, fam, 1))))
+                tab.append((f"outer{n}_{fam}", cell, lambda T, n=n, fam=fam: ufl.outer(vec(T, fam), vec(T, fam, 1))))
+                tab.append((f"invuse{n}_{fam}", cell, lambda T, n=n, fam=fam:
+                            ufl.dot(ufl.inv(mat(T, n, fam)), vec(T, fam)) * ufl.det(mat(T, n, fam, 1))))
+                tab.append((f"gradinv{n}_{fam}", cell, lambda T, n=n, fam=fam:
+                            ufl.grad(ufl.inv(mat(T, n, 1)) if fam else ufl.det(mat(T, n, 1)) * ufl.cofac(mat(T, n, 1)))))
+    for fam in (0, 1):
+        tab.append((f"cross_{fam}", "tetrahedron", lambda T, fam=fam: ufl.cross(vec(T, fam), vec(T, fam, 1))))
+        tab.append((f"perp_{fam}", "triangle", lambda T, fam=fam: ufl.perp(vec(T, fam))))
+        tab.append((f"transposeR_{fam}", "triangle",
+                    lambda T, fam=fam: ufl.transpose(T.R[0] if fam == 0 else T.R[0] * T.f[0] + T.R[0])))
+        tab.append((f"dotT3_{fam}", "triangle", lambda T, fam=fam: ufl.dot(T.T3[0], vec(T, fam))))
+    return tab
+
+
+COMPOUND = _compound_table()
+
+
+def compound_cases(max_comps):
+    """[(table index, component)]: every component, or `max_comps` of them spread over the tensor."""
+    out = []
+    probe = {}
+    for k, (name, cell, mk) in enumerate(COMPOUND):
+        if cell not in probe:
+            probe[cell] = Terminals(cell)
+        sh = mk(probe[cell]).ufl_shape
+        comps = list(itertools.product(*[range(d) for d in sh]))
+        if len(comps) > max_comps:
+            step = len(comps) / max_comps
+            comps = [comps[int(j * step + (k % 3)) % len(comps)] for j in range(max_comps)]
+            comps = sorted(set(comps))
+        out.extend((k, c) for c in comps)
+    return out
+
+
+def compound_builder(k, comp):
+    name, cell, mk = COMPOUND[k]
+
+    def build(T, rng):
+        return mk(T), comp
+    build.cell = cell
+    build.stream = "compound:" + name
+    return build
+
+
+# -------------------------------------------------------------------------------------------------
+# diff() with respect to scalar / vector / tensor variables.  Oracle: the partial derivative w.r.t. one
+# component of the variable = derivative of psi(base + tau * E_kl) w.r.t. the extra jet variable tau.
+
+class SmoothV(Smooth):
+    """Smooth expressions in which about half of the leaves are components / invariants of V."""
+
+    def __init__(self, T, rng, V):
+        super().__init__(T, rng)
+        self.V = V
+
+    def leaf(self):
+        r, V = self.rng, self.V
+        if r.random() < 0.45:
+            return Smooth.leaf(self)
+        sh = V.ufl_shape
+        comp = tuple(r.randrange(d) for d in sh)
+        k = r.randrange(8)
+        if len(sh) == 2 and sh[0] == sh[1]:
+            if k == 0:
+                return ufl.tr(ufl.dot(V, V))
+            if k == 1:
+                return ufl.inner(r.choice(self.T.M), V)
+            if k == 2:
+                return ufl.dot(V, r.choice(self.T.v))[comp[0]]
+            if k == 3:
+                return ufl.det(V)
+            if k == 4:
+                return ufl.dot(V, V)[comp] * ufl.transpose(V)[comp]
+        if len(sh) == 1 and k == 0:
+            return ufl.dot(V, r.choice(self.T.v))
+        if len(sh) == 1 and k == 1:
+            return ufl.dot(r.choice(self.T.M), V)[r.randrange(2)]
+        return V[comp] if sh else V
+
+
+def unit_tensor(shape, comp):
+    if not shape:
+        return 1
+    return ufl.as_tensor(_unit(shape, comp))
+
+
+def _unit(shape, comp):
+    if len(shape) == 1:
+        return [1 if k == comp[0] else 0 for k in range(shape[0])]
+    return [_unit(shape[1:], comp[1:]) if k == comp[0] else _zeros(shape[1:]) for k in range(shape[0])]
+
+
+def _zeros(shape):
+    if not shape:
+        return 0
+    return [_zeros(shape[1:]) for _ in range(shape[0])]
+
+
+def diff_builder(T, rng):
+    kind = rng.randrange(9)
+    base = {0: lambda: T.f[0], 1: lambda: T.f[1] * T.x[0] + 2,
+            2: lambda: T.v[0], 3: lambda: T.v[0] * T.f[0] + T.x,
+            4: lambda: T.M[0], 5: lambda: T.M[0] + ufl.outer(T.x, T.v[1]), 6: lambda: T.M[1] * T.f[2],
+            7: lambda: T.R[0], 8: lambda: T.T3[0]}[kind]()
+    base = ufl.as_ufl(base)
+    vsh = base.ufl_shape
+    sub = rng.randrange(10**9)
+    d = rng.choice([1, 2, 2, 3])
+    vector_psi = rng.random() < 0.25
+
+    def psi_fn(V):
+        g = SmoothV(T, random.Random(sub), V)
+        if vector_psi:
+            return ufl.as_vector([g.u(d), g.u(max(d - 1, 0))])
+        return g.u(d)
+
+    V = ufl.variable(base)
+    psi = psi_fn(V)
+    psh = psi.ufl_shape
+    cpsi = tuple(rng.randrange(n) for n in psh)
+    c1 = tuple(rng.randrange(n) for n in vsh)
+    c2 = tuple(rng.randrange(n) for n in vsh)
+    form = rng.randrange(6)
+
+    def pert(n):
+        p = base + T.taus[0] * unit_tensor(vsh, c1)
+        if n == 2:
+            p = p + T.taus[1] * unit_tensor(vsh, c2)
+        return p
+
+    keep = []          # keeps the oracle's expressions alive: the mirror memoises on id()
+
+    def ev(expr, env, memo, comp):
+        keep.append(expr)
+        m = {}
+        j = pyden.evaluate(expr, env, {}, comp, None, m)
+        for kk, vv in m.items():
+            memo[("oracle", len(keep), kk)] = vv          # only for the magnitude scale
+        return j
+
+    def jet(env, memo, n, comp=cpsi):
+        return ev(psi_fn(pert(n)), env, memo, comp)
+
+    g = T.g
+    if form <= 2:
+        return ufl.diff(psi, V), cpsi + c1, lambda env, memo: jet(env, memo, 1).diff(g).value()
+    if form == 3:
+        return (ufl.diff(ufl.diff(psi, V), V), cpsi + c1 + c2,
+                lambda env, memo: jet(env, memo, 2).diff(g).diff(g + 1).value())
+    if form == 4:
+        j = rng.randrange(g)
+        return (ufl.grad(ufl.diff(psi, V)), cpsi + c1 + (j,),
+                lambda env, memo: jet(env, memo, 1).diff(g).diff(j).value())
+    # the derivative used inside a larger expression: contraction with a non-symmetric literal tensor
+    comps = list(itertools.product(*[range(n) for n in vsh]))
+    wts = {c: rng.choice([1, 10, 100, -3, 7, 1000]) * (1 + comps.index(c)) for c in comps}
+    Dp = ufl.diff(psi, V)
+    e = sum(Dp[cpsi + c] * wts[c] for c in comps) if comps != [()] else Dp[cpsi] * wts[()] if cpsi else Dp * wts[()]
+
+    def oracle(env, memo):
+        tot = 0
+        for c in comps:
+            p = base + T.taus[0] * unit_tensor(vsh, c)
+            tot = tot + ev(psi_fn(p), env, memo, cpsi).diff(g).value() * wts[c]
+        return tot
+    return e, (), oracle
+
+
+diff_builder.stream = "diff"
+
+
 def run_case(idx, seed, depth, exact_only=False, allow_known=True, build=None):
     """Generates one input, runs the real code and the mirror.  Returns a Case."""
     rng = random.Random(seed)
-    T = Terminals()
+    cell = getattr(build, "cell", CELL)
+    T = Terminals(cell)
     plain = set()
     for t in T.f + T.v + T.M:
         if rng.random() < 0.35:
             plain.add(id(t))
-    env = DenEnv(rng.randrange(10**9), plain)
+    env = DenEnv(rng.randrange(10**9), plain, T.g, T.taus)
     log = {}
     mp = make_mapping(T, env, rng, log)
-    x = tuple(env.x0)
+    x = tuple(env.x0[:T.g])
+    oracle = None
     if build is not None:
         for attempt in range(20):
             try:
-                e, comp = build(T, rng)
+                r = build(T, rng)
+                e, comp = r[0], r[1]
+                oracle = r[2] if len(r) > 2 else None
                 break
             except (ValueError, AssertionError, TypeError, IndexError, AttributeError):
                 continue
@@ -798,7 +1048,7 @@ def run_case(idx, seed, depth, exact_only=False, allow_known=True, build=None):
                 continue          # the CONSTRUCTORS rejected the draw (not an evaluation)
         else:
             e, comp = T.f[0] * T.f[1], ()
-    env.order = max(3, deriv_depth(e))      # before any terminal field is drawn
+    env.order = deriv_depth(e)              # before any terminal field is drawn: the jets need exactly this order
     c = Case()
     c.idx, c.seed, c.e, c.comp, c.T, c.mp, c.log, c.x, c.env = idx, seed, e, comp, T, mp, log, x, env
     c.expand_error = None
@@ -818,7 +1068,10 @@ def run_case(idx, seed, depth, exact_only=False, allow_known=True, build=None):
     memo = {}
     c.scale = 0.0
     try:
-        c.expected = Outcome("num", pyden.evaluate(e, env, {}, comp, None, memo).value())
+        if oracle is not None:
+            c.expected = Outcome("num", oracle(env, memo))
+        else:
+            c.expected = Outcome("num", pyden.evaluate(e, env, {}, comp, None, memo).value())
         for j in memo.values():
             for v in getattr(j, "c", {}).values():
                 try:
@@ -829,8 +1082,8 @@ def run_case(idx, seed, depth, exact_only=False, allow_known=True, build=None):
         c.expected = Outcome("error", None, "ZeroDivisionError")
     except (ValueError, OverflowError) as ex:
         c.expected = Outcome("error", None, type(ex).__name__)
-    except pyden.Unsupported as ex:
-        c.expected = Outcome("unsupported", None, str(ex))
+    except (pyden.Unsupported, TypeError) as ex:      # TypeError: the mirror left the reals (complex jets)
+        c.expected = Outcome("unsupported", None, f"{type(ex).__name__}: {ex}")
     c.known = known_class(c.f)
     if c.expand_error and c.expand_error.startswith("ValueError: Expecting scalar arguments") \
             and abs_with_free_index_under_derivative(e):
